@@ -8,3 +8,5 @@ mod c27;
 mod c35;
 #[cfg(kani)]
 mod c34;
+#[cfg(kani)]
+mod c28;
